@@ -111,6 +111,12 @@ struct TSParser {
   bool has_scanner_error;
   bool canceled_balancing;
   bool has_error;
+  // Where the version loop of `ts_parser_parse` stood when a parse was
+  // cancelled, so that a resumed parse schedules the stack versions exactly
+  // as an uninterrupted one would.
+  uint32_t resume_position;
+  uint32_t resume_last_position;
+  StackVersion resume_version;
 };
 
 typedef struct {
@@ -2127,6 +2133,9 @@ void ts_parser_reset(TSParser *self) {
   self->has_scanner_error = false;
   self->has_error = false;
   self->canceled_balancing = false;
+  self->resume_position = 0;
+  self->resume_last_position = 0;
+  self->resume_version = 0;
   self->parse_options = (TSParseOptions) {0};
   self->parse_state = (TSParseState) {0};
 }
@@ -2148,9 +2157,11 @@ TSTree *ts_parser_parse(
 
   self->operation_count = 0;
 
+  bool is_resuming = false;
   if (ts_parser_has_outstanding_parse(self)) {
     LOG("resume_parsing");
     if (self->canceled_balancing) goto balance;
+    is_resuming = true;
   } else {
     array_clear(&self->included_range_differences);
     self->included_range_difference_index = 0;
@@ -2179,9 +2190,15 @@ TSTree *ts_parser_parse(
   }
 
   uint32_t position = 0, last_position = 0, version_count = 0;
+  StackVersion version = 0;
+  if (is_resuming) {
+    position = self->resume_position;
+    last_position = self->resume_last_position;
+    version = self->resume_version;
+  }
   do {
     for (
-      StackVersion version = 0;
+      ;
       version_count = ts_stack_version_count(self->stack),
       version < version_count;
       version++
@@ -2199,6 +2216,9 @@ TSTree *ts_parser_parse(
 
         if (!ts_parser__advance(self, version, allow_node_reuse)) {
           if (self->has_scanner_error) goto exit;
+          self->resume_position = position;
+          self->resume_last_position = last_position;
+          self->resume_version = version;
           return NULL;
         }
 
@@ -2211,6 +2231,8 @@ TSTree *ts_parser_parse(
         }
       }
     }
+
+    version = 0;
 
     // After advancing each version of the stack, re-sort the versions by their cost,
     // removing any versions that are no longer worth pursuing.
